@@ -49,6 +49,14 @@ def check_one(isa, mname, d, b, full, stats):
     stats["relations"] += 1
     if o2 != o:
         yield ("truncation-stable", "decode(%s) = %r but decode of exactly its %d bytes gives %r" % (b.hex(), o, n, o2))
+    # every shorter input that already decodes must decode to the same instruction (its consumed bytes are a
+    # prefix of b, and "those bytes followed by anything else" is b itself)
+    for k in range(1, n):
+        o5 = dec(d, b[:k])
+        stats["relations"] += 1
+        if o5 is not None and o5[0] != "exc" and o5 != o:
+            yield ("shorter-input", "decode(%s) = %r although the first %d bytes alone already decode to %r" % (b.hex(), o, k, o5))
+            break
     for t in tails_for(b, n, full):
         o3 = dec(d, b[:n] + t)
         stats["relations"] += 1
